@@ -253,6 +253,37 @@ def MM():
     return None
 
 
+def RR():
+    """add_bases refused for a relative reference out of scope discards input values of derived cells in sub spaces"""
+    m = _reset()
+    A_ = m.new_space("A")
+    A_.new_cells("foo", formula="lambda x: x")
+    B_ = m.new_space("B", bases=A_)
+    B_.foo[1] = 100
+    Z_, O_ = m.new_space("Z"), m.new_space("O")
+    Z_.set_ref("r", O_, "relative")
+    try:
+        A_.add_bases(Z_)
+    except Exception:     # noqa
+        if dict(B_.foo) != {1: 100}:
+            return "refused add_bases left B.foo holding %r (was {1: 100})" % (dict(B_.foo),)
+    return None
+
+
+def SS():
+    """set_ref(relative) refused in a sub space that would take the name over from a later base leaves the reference"""
+    m = _reset()
+    A_, U_, Z_ = m.new_space("A"), m.new_space("U"), m.new_space("Z")
+    U_.q = 1
+    m.new_space("T", bases=[A_, U_])
+    try:
+        A_.set_ref("q", Z_, "relative")
+    except Exception:     # noqa
+        if "q" in A_._own_refs:
+            return "refused set_ref left A.q behind"
+    return None
+
+
 # ------------------------------------------------------------------ C03
 def B():
     """redefining a base cells overwrites copies deriving from an override in between"""
